@@ -108,6 +108,13 @@ class Versioning(object):
         if instance.childName and instance.childName != self.soClass.__name__:
             return  # if you want your child class versioned, version it
 
+        # This signal arrives before the new values are validated: do not
+        # archive anything for an update that is going to be refused.
+        for name, value in kwargs.items():
+            from_python = getattr(instance, '_SO_from_python_%s' % name, None)
+            if from_python:
+                from_python(value, instance._SO_validatorState)
+
         values = instance.sqlmeta.asDict()
         del values['id']
         values['masterID'] = instance.id
